@@ -244,8 +244,14 @@ class FP:
         if name == "fabs":
             return z3.If(x >= 0, x, -x)
         if name == "sqrt":
+            x = z3.simplify(x)
+            cache = self.ctx.cur.user.setdefault("sqrt", {})
+            hit = cache.get(x.get_id())
+            if hit is not None:
+                return hit[1]
             y = self.ctx.fresh_real("sqrt")
             self.ctx.add_side(z3.And(y >= 0, y * y == x), "sqrt(x): x>=0 assumed (NaN paths outside the claim)")
+            cache[x.get_id()] = (x, y)
             return y
         if name in ("floor", "ceil"):
             k = self.ctx.fresh_int(name)
